@@ -157,4 +157,60 @@ CHECKS = {
                      "and manifests over revocation-heavy histories",
         "design_ref": "DESIGN.md section 3, C03",
     },
+    "C09": {
+        "bin": "c09",
+        "level": "fault_enumeration",
+        "quick": {"shards": 10, "budget_s": 60, "min_evaluations": 2000},
+        "thorough": {"shards": 14, "budget_s": 600, "min_evaluations": 50000},
+        "rule": (
+            "Part A: seeded sequences (5-40 steps) of schedule (all five "
+            "modes, explicit/implicit times around now), claim, finish, "
+            "reschedule, clock advance and restart on the real Queue/"
+            "TaskQueue (disk and memory back-ends), each step judged "
+            "against the semantics the property states (claim returns a due "
+            "task no later than any other due task and never misses one; "
+            "the 'soonest' modes and reschedule keep the earlier time; "
+            "if-missing respects pending and running; a restart returns "
+            "every running task name to pending). Part C (crash points): a "
+            "world is stopped with k in {0,1,2,3,5} claimed, unfinished "
+            "tasks (one k per shard) incl. the follow-up of a committed ROA "
+            "change, restarted, and must re-run each of them, schedule every "
+            "recurring task again and publish the change. Part B: after "
+            "every operation of random histories and queue quiescence "
+            "(no manual sync rounds): no open request, RRDP snapshot on "
+            "disk = server content, old key revoked after activation, "
+            "API-reported objects in the repository. evaluations = steps "
+            "judged + restart/recurring checks + follow-up checks; "
+            "distinct_nontrivial = distinct (step kind, mode, #pending, "
+            "#running of that name / #due, ties / restart k) situations "
+            "and (operation kind, outcome) follow-up situations."
+        ),
+        "assumptions": COMMON_ASSUMPTIONS + [
+            "'eventually executed' is restated as bounded progress: the "
+            "queue becomes idle within 400 tasks / 90 virtual seconds and "
+            "the effect is visible then",
+            "a crash is modelled as dropping the instance between two task "
+            "claims/completions; cuts inside a task's own writes are C08's",
+            "duplicate entries of one task name (a task scheduled again "
+            "while running and then rescheduled) are tolerated: the "
+            "property does not forbid them",
+        ],
+        "level_text": (
+            "Runtime monitoring with a step-wise oracle on the real queue "
+            "code plus enumerated restart situations (every k in the set, "
+            "both back-ends for the queue level) and follow-up monitors on "
+            "full histories. Crash points enumerated: k running tasks at "
+            "restart for k in {0,1,2,3,5}; the deeper cut enumeration "
+            "inside operations is C08."
+        ),
+        "level_note": (
+            "Trusted: the harness reads the queue's key-value entries "
+            "through its own KeyValueStore handle; virtual time through "
+            "the verif-hooks queue clock offset."
+        ),
+        "technique": "runtime monitoring: step-wise reference semantics on "
+                     "the real queue + enumerated restarts + follow-up "
+                     "monitors",
+        "design_ref": "DESIGN.md section 4, C09",
+    },
 }
